@@ -110,8 +110,8 @@ def check(run, replay=None):
             spec["options"]["report_timestep"] = spec["options"]["hydraulic_timestep"]
             seen = set()
             spec["leaks"] = [l for l in spec["leaks"] if not (l["node"] in seen or seen.add(l["node"]))]
-            if k % 3 == 0:
-                directed(rng, spec)
+            if k % 3 != 2:
+                directed(random.Random(run.seed * 313 + k), spec)      # own stream: the other draws stay what they are
             try:
                 wn = build(spec, wntr)
             except Exception:
